@@ -136,7 +136,7 @@ pub fn gen_general(profile: &str, seed: u64, monitors: &[&str], o: GenOpts) -> P
     p
 }
 
-fn must_deliver(seed: u64, handshake_focus: bool) -> Params {
+fn must_deliver(seed: u64, handshake_focus: bool, rejecting: bool) -> Params {
     let mut r = Rng::new(seed ^ 0xc02);
     let mut p = gen_general(
         "C02",
@@ -206,6 +206,45 @@ fn must_deliver(seed: u64, handshake_focus: bool) -> Params {
     }
     p.knobs.insert("c02_mode".into(), 1);
     p.t_max_us = 900_000_000;
+    if rejecting {
+        // Applications that turn streams down: the receiving side never reads them and, after
+        // a while, calls stop_sending or drops the handle - with the stream half way through,
+        // blocked on credit, or completely buffered including its end. Together the rejected
+        // streams carry several times the receiver's connection window, so every credit they
+        // held has to come back for the ordinary flows of the scenario to get through.
+        let srv_dw = r.range(8_000, 120_000);
+        p.server.data_window = srv_dw;
+        let rtt = 2 * (p.net.delay_us + p.net.jitter_us) + 1_000;
+        for c in p.clients.iter_mut() {
+            let n = r.range(4, 12);
+            for _ in 0..n {
+                let by_server = r.chance(1, 4);
+                let mut s = gen_stream(&mut r, by_server, 1_000, false);
+                s.bidi = r.chance(1, 3);
+                s.rev = None;
+                let dw = if by_server { c.cfg.data_window } else { srv_dw };
+                let len = match r.below(3) {
+                    0 => dw / 3 + 1,
+                    1 => r.range(1, dw.max(2)),
+                    _ => dw.saturating_mul(2),
+                };
+                s.fwd.len = len.clamp(1, 300_000);
+                s.fwd.end = End::Finish;
+                s.fwd.read = ReadMode::RejectAfter {
+                    delay_us: rtt * r.range(1, 12),
+                    code: r.range(0, 1000),
+                    drop: r.chance(1, 2),
+                };
+                s.open_delay_us = r.range(0, 40) * rtt / 4;
+                if by_server {
+                    c.server_streams.push(s);
+                } else {
+                    c.streams.push(s);
+                }
+            }
+        }
+        p.knobs.insert("c02_rejecting".into(), 1);
+    }
     p
 }
 
@@ -803,7 +842,7 @@ pub fn make(profile: &str, seed: u64, index: u64) -> (Params, Extras) {
             )));
             p
         }
-        "C02" => must_deliver(seed, index % 4 == 3),
+        "C02" => must_deliver(seed, index % 4 == 3, index % 4 == 2),
         "C02bh" => never_recovers(seed, index),
         "C09bh" => {
             // the same permanent-blackhole scenarios, watched by the loss/PTO monitor: long
